@@ -78,7 +78,9 @@ func runZ3(query string, timeoutS int) (string, string) {
 
 // extractInputs asks the solver for concrete parameter values (strings and byte slices in full).
 func extractInputs(o *Obligation, fn *ssa.Function, fr *FuncResult) ([]concreteArg, map[string]string, string) {
+	o.idxDefined = true
 	base := o.query(true)
+	o.idxDefined = false
 	base = base[:strings.LastIndex(base, "(check-sat)")]
 	type lenq struct {
 		term string
